@@ -181,6 +181,21 @@ def run(pid, repo='/repo'):
         s = A('a\x1b[') + '1mbc'
         return None if s[0:5].base_str == s.base_str[0:5] and s[3:].base_str == '1mbc' else repr(s[0:5].base_str)
     case('D30 slice re-parses text', {'C04': 'getitem_text'}, d30)
+    # D31
+    def d31():
+        s = A('abc', 'red'); r = s.replace('x', 'y')
+        if r is s:
+            return 'replace() without a match returned the receiver itself'
+        r.apply_formatting('bold')
+        return None if str(s) == '\x1b[31mabc\x1b[m' else 'receiver changed through the result'
+    case('D31 replace without match returns self', {'C08': 'result_is_source'}, d31)
+    # D32 (found by the Lean proof attempt of iadd_right)
+    def d32():
+        x = A('a', 'red'); b1 = A('ce') + x + 'd'
+        b1.apply_formatting('blue', 1, 4); b1.apply_formatting('red', 0, 4)
+        c = x + b1
+        return None if sat(c)[1:] == sat(b1) else '%r vs %r' % (sat(c)[1:], sat(b1))
+    case('D32 seam merge with an object that starts again later', {'C05': 'iadd_right'}, d32)
     # D26 — known finding: byte-level idempotence of simplify() with verbatim multi-code settings
     def d26():
         s = A('ab'); s.apply_formatting('blue', 0, 1); s.apply_formatting('[1;31', 1, 2)
